@@ -257,6 +257,14 @@ def _size_forms(n, form):
             v = s.int_var(1, n)
             return v, [v]
         return b, (lambda a: [a[0]] * n)
+    if form == "vmix":
+        # a per-vertex list mixing variables and ints: even vertices carry an IntVar of their own with domain [1, 2], odd vertices
+        # the int 2 (the top value of the neighbouring variable: the two clues agree on that value only)
+        def b(s):
+            vs = [s.int_var(1, 2) for i in range(n) if i % 2 == 0]
+            it = iter(vs)
+            return [next(it) if i % 2 == 0 else 2 for i in range(n)], vs
+        return b, (lambda a: [a[i // 2] if i % 2 == 0 else 2 for i in range(n)])
     if form.startswith("list"):
         pat = form[5:].split(",")  # e.g. list:2,-,1
         vals = [None if p == "-" else int(p) for p in pat]
@@ -369,7 +377,7 @@ def inst_C07(d):
 def descs_C07(tier):
     nmax = 4 if tier == "quick" else 5
     for n in range(1, nmax + 1):
-        size_forms = ["none", "const1", "const2", "var", "list:" + ",".join((["2", "-", "1", "-", "3"] * 2)[:n])]
+        size_forms = ["none", "const1", "const2", "var", "list:" + ",".join((["2", "-", "1", "-", "3"] * 2)[:n])] + (["vmix"] if n >= 2 else [])
         if n >= 3:
             # one small clue and otherwise holes: clue-free blocks larger than every clue (seed R3C07)
             size_forms += ["list:" + ",".join(["1"] + ["-"] * (n - 1)), "list:" + ",".join(["-"] * (n - 1) + ["1"])]
